@@ -241,31 +241,56 @@ def _calls_named(node, name):
 
 
 def pool_timeout_order():
-    """(-> inside, closes): is `_handle_timeout(...)` called lexically INSIDE the `with ThreadPoolExecutor(...)` block of
-    `_multiprocessing_timeout` (i.e. before the implicit join of the worker when the block is left)?  and does
-    `_handle_timeout` call `transport.close()` before it raises?"""
+    """-> (inside, closes, joins).
+    joins:  leaving the pool joins the worker — the pool is the context of a with-statement, or is shut down with
+            `shutdown()` / `shutdown(wait=True)`; `shutdown(wait=False)` (or no shutdown at all) does not join.
+    inside: `_handle_timeout(...)` runs BEFORE that join: lexically inside the with-block, or — manual pool — inside the
+            try whose finally shuts the pool down / on an earlier line than the shutdown call.
+    closes: `_handle_timeout` calls `transport.close()` before it raises."""
     tree = _parse(DECO)
     fn = _func(tree, "_multiprocessing_timeout", DECO)
-    withs = [n for n in ast.walk(fn) if isinstance(n, ast.With) and any(
-        isinstance(it.context_expr, ast.Call) and getattr(it.context_expr.func, "id", getattr(it.context_expr.func, "attr", "")) == "ThreadPoolExecutor"
-        for it in n.items)]
-    if len(withs) != 1:
-        raise TranslateError(f"{DECO}: _multiprocessing_timeout: expected one `with ThreadPoolExecutor(...)` block, found {len(withs)}")
-    w = withs[0]
+
+    def is_pool_ctor(e):
+        return isinstance(e, ast.Call) and getattr(e.func, "id", getattr(e.func, "attr", "")) == "ThreadPoolExecutor"
+
     allc = _calls_named(fn, "_handle_timeout")
     if not allc:
         raise TranslateError(f"{DECO}: _multiprocessing_timeout does not call _handle_timeout")
-    inside_ids = {id(c) for b in w.body for c in _calls_named(b, "_handle_timeout")}
-    inside = all(id(c) in inside_ids for c in allc)
-    if not any(isinstance(n, ast.Call) and isinstance(n.func, ast.Attribute) and n.func.attr == "submit" for b in w.body for n in ast.walk(b)):
-        raise TranslateError(f"{DECO}: _multiprocessing_timeout: no pool.submit inside the block")
+    if not any(isinstance(n, ast.Call) and isinstance(n.func, ast.Attribute) and n.func.attr == "submit" for n in ast.walk(fn)):
+        raise TranslateError(f"{DECO}: _multiprocessing_timeout: no pool.submit")
+    withs = [n for n in ast.walk(fn) if isinstance(n, ast.With) and any(is_pool_ctor(it.context_expr) for it in n.items)]
+    assigns = [n for n in ast.walk(fn) if isinstance(n, ast.Assign) and is_pool_ctor(n.value)]
+    if len(withs) + len(assigns) != 1:
+        raise TranslateError(f"{DECO}: _multiprocessing_timeout: expected exactly one ThreadPoolExecutor, found {len(withs) + len(assigns)}")
+    if withs:
+        w = withs[0]
+        inside_ids = {id(c) for b in w.body for c in _calls_named(b, "_handle_timeout")}
+        inside, joins = all(id(c) in inside_ids for c in allc), True
+    else:
+        shut = [n for n in ast.walk(fn) if isinstance(n, ast.Call) and isinstance(n.func, ast.Attribute) and n.func.attr == "shutdown"]
+        if len(shut) > 1:
+            raise TranslateError(f"{DECO}: _multiprocessing_timeout: several pool.shutdown calls")
+        if not shut:
+            inside, joins = True, False
+        else:
+            sh = shut[0]
+            waitkw = [k.value for k in sh.keywords if k.arg == "wait"] + list(sh.args[:1])
+            if waitkw and not isinstance(waitkw[0], ast.Constant):
+                raise TranslateError(f"{DECO}: pool.shutdown(wait=<expression>) cannot be decided")
+            joins = (not waitkw) or bool(waitkw[0].value)
+            tries = [t for t in ast.walk(fn) if isinstance(t, ast.Try) and any(sh in list(ast.walk(f)) for f in t.finalbody)]
+            if tries:
+                body_ids = {id(c) for b in tries[0].body for c in _calls_named(b, "_handle_timeout")}
+                inside = all(id(c) in body_ids for c in allc)
+            else:
+                inside = all(c.lineno < sh.lineno for c in allc)
     ht = _func(tree, "_handle_timeout", DECO)
     closes = [n.lineno for n in ast.walk(ht) if isinstance(n, ast.Call) and isinstance(n.func, ast.Attribute) and n.func.attr == "close"
               and isinstance(n.func.value, ast.Name) and n.func.value.id == "transport"]
     raises = [n.lineno for n in ast.walk(ht) if isinstance(n, ast.Raise)]
     if not raises:
         raise TranslateError(f"{DECO}: _handle_timeout does not raise")
-    return inside, bool(closes) and min(closes) < max(raises)
+    return inside, bool(closes) and min(closes) < max(raises), joins
 
 
 def close_guard():
@@ -331,9 +356,9 @@ def analyse():
         types.append((rel, ctor, guarded))
     if not rows:
         raise TranslateError("no transport-reaching call found in any channel operation")
-    inside, closes = pool_timeout_order()
+    inside, closes, joins = pool_timeout_order()
     return dict(rows=rows, operations=ops, lock_ctx=ctx, lock_types=types, default=_default_flag(), pool_inside=inside, pool_closes=closes,
-                close_guard=close_guard(), sections=secs)
+                close_guard=close_guard(), sections=secs, pool_joins=joins)
 
 
 def _s(x):
@@ -375,6 +400,9 @@ def generate():
              f"def handleTimeoutInsidePoolBlock : Bool := {_b(a['pool_inside'])}\n\n"
              "/-- `_handle_timeout` calls `transport.close()` before it raises ScrapliTimeout -/\n"
              f"def handleTimeoutClosesBeforeRaise : Bool := {_b(a['pool_closes'])}\n\n")
+    body += ("/-- leaving the thread pool of `_multiprocessing_timeout` JOINS the worker (with-statement, or shutdown(wait=True)):\n"
+             "    ScrapliTimeout cannot reach the caller while the worker is still inside the channel lock context -/\n"
+             f"def poolJoinsWorker : Bool := {_b(a['pool_joins'])}\n\n")
     body += ("/-- the condition under which `_handle_timeout` calls transport.close() (source text of the guarding tests) -/\n"
              f"def handleTimeoutCloseGuard : String := {_s(a['close_guard'])}\n\n")
     body += "end Scrapli.Gen.LockCoverage\n"
